@@ -16,11 +16,12 @@ def runOne (j : Json) : Except String Json := do
   let cfg ← parseCfg (← j.getObjVal? "cfg")
   let hits ← (← getArr j "hits").toList.mapM (fun h => do
     pure (Hit.mk (← getInt h "ts") (← parseOutcome (← h.getObjVal? "cond"))))
-  let tr := traceFrom cfg Stats.init hits
-  let st := (runFrom cfg Stats.init hits).1
+  let kind : Kind := match (getOptStr j "action").toOption.join with
+    | some "log" => .log | some "metric" => .metric | some "span" => .span | _ => .snapshot
+  let hasProc := match j.getObjVal? "has_proc" with | .ok (.bool b) => b | _ => true
+  let tr := traceFromK kind hasProc cfg Stats.init hits
   pure (Json.mkObj [("fired", Json.arr (tr.map (fun r => Json.bool r.1)).toArray),
-                    ("evals", Json.arr (tr.map (fun r => toJson r.2)).toArray),
-                    ("count", toJson st.count), ("last", toJson st.last)])
+                    ("evals", Json.arr (tr.map (fun r => toJson r.2)).toArray)])
 
 def evalOne (j : Json) : Except String Json := do
   let ev ← parseOracle j "oracle"
